@@ -46,11 +46,11 @@ HANGS = ["enum Color {\n    Red,", "fun foo<T,", "struct Foo<T,", "Foo{ x: 1,", 
 CRASHES = ["(1, })", "(1,", "let (a", "let x: (Int, =>", "fun f(a,", "[x =>", "x.", "x +", "f(", "match x { A =>"]
 BOUNDED = [
     {"name": "truncated_corpus", "kind": "truncate-corpus", "props": ["C01"], "input": HANGS + CRASHES,
-     "n_files": 40, "n_cuts": 6, "n_deletes": 2, "timeout": 20,
-     "bound": "prefixes (6 cut points) and single-character deletions (2) of 40 of the repository's .gdn files (fixed seed), plus the listed inputs; stands in for the ASSUMED clause (P) of parse_expression / parse_toplevel_item_from_tokens and for the parts of parsing no slice models (token texts, values)"},
+     "n_files": 40, "n_cuts": 6, "n_deletes": 2, "n_unicode": 6, "timeout": 20,
+     "bound": "prefixes (6 cut points), single-character deletions (2) and insertions of a multi-byte character (6, mostly right after comment/string/bracket starts) of 40 of the repository's .gdn files (fixed seed), plus the listed inputs; stands in for the ASSUMED clause (P) of parse_expression / parse_toplevel_item_from_tokens and for the parts of parsing no slice models (token texts, values)"},
     {"name": "truncated_corpus_full", "kind": "truncate-corpus", "props": ["C01"], "tier": "thorough", "input": [],
-     "n_files": 400, "n_cuts": 25, "n_deletes": 8, "timeout": 20, "seed": 2,
-     "bound": "prefixes (25 cut points) and single-character deletions (8) of up to 400 of the repository's .gdn files (fixed seed)"},
+     "n_files": 400, "n_cuts": 25, "n_deletes": 8, "n_unicode": 25, "timeout": 20, "seed": 2,
+     "bound": "prefixes (25 cut points), single-character deletions (8) and multi-byte insertions (25) of up to 400 of the repository's .gdn files (fixed seed)"},
 ]
 WITNESSES = [
     {"match": r"tokens\.s_parse_enum_body\.", "kind": "check", "input": HANGS[0], "timeout": 10, "props": ["C01"]},
